@@ -26,7 +26,7 @@ ASSUMPTIONS = ["DUMP -all writes every stored reactant with >=14 significant dig
                "amounts below 1e-20 mol are the engine's representation of zero (MIN_TOTAL 1e-25, solid solutions 1e-27)",
                "excluded by construction (counted in classes): KNOBS -iterations > 100 for cells with SOLID_SOLUTIONS + fixed-volume "
                "GAS_PHASE (known finding: mass lost/created at the switch to numerical derivatives), never-equilibrated -donnan "
-               "surfaces with phreeqc.dat/wateq4f.dat (known finding: diffuse-layer water created at first contact), CVODE for rates that overshoot "
+               "surfaces (known finding: diffuse-layer water created at first contact; they are defined with -equilibrate instead), CVODE for rates that overshoot "
                "the reactant, kinetic uptake of substances not abundantly present in every solution (engine does not return)"]
 TECHNIQUE = "property-based testing (Hypothesis) with an independent inventory oracle over DUMP text"
 LEVEL_TEXT = ("Exploration: thousands of generated cell histories per run; for every step every element (incl. H, O) and the net "
